@@ -924,3 +924,135 @@ def _assume(I, st, fid, bi, a, c, t):
 @model('core::intrinsics::unlikely', 'core::intrinsics::likely', 'core::hint::black_box', 'core::hint::unlikely', 'core::hint::likely', 'core::hint::cold_path')
 def _hint(I, st, fid, bi, a, c, t):
     return a[0] if a else UNIT
+
+
+# ------------------------------------------------------------------ newer std idioms (strict-provenance helpers, lazy bool / Option
+# combinators, inspect): the same semantics as the spellings above, added so that a modernised but equivalent body is read alike
+for _p in ('core::ptr::from_ref', 'core::ptr::from_mut', 'core::ptr::non_null::NonNull::<T>::from_ref', 'core::ptr::non_null::NonNull::<T>::from_mut',
+           'core::ptr::non_null::NonNull::<T>::addr', 'core::ptr::mut_ptr::<impl *mut T>::addr', 'core::ptr::const_ptr::<impl *const T>::addr',
+           'core::num::nonzero::NonZero::<T>::get', 'core::num::nonzero::NonZero::<T>::new_unchecked',
+           'core::ptr::mut_ptr::<impl *mut T>::expose_provenance', 'core::ptr::const_ptr::<impl *const T>::expose_provenance',
+           'core::ptr::non_null::NonNull::<T>::expose_provenance',
+           'core::ptr::mut_ptr::<impl *mut T>::cast_mut', 'core::ptr::const_ptr::<impl *const T>::cast_const',
+           'core::ptr::non_null::NonNull::<T>::cast_mut', 'core::mem::maybe_uninit::MaybeUninit::<T>::assume_init',
+           'core::mem::maybe_uninit::MaybeUninit::<T>::as_mut_ptr', 'core::mem::maybe_uninit::MaybeUninit::<T>::as_ptr'):
+    TABLE.setdefault(_p, _ident)
+
+
+def _byte_add(sign):
+    def h(I, st, fid, bi, a, c, t):
+        return app('add' if sign > 0 else 'sub', a[0], a[1])
+    return h
+
+
+for _p in ('core::ptr::mut_ptr::<impl *mut T>', 'core::ptr::const_ptr::<impl *const T>', 'core::ptr::non_null::NonNull::<T>'):
+    TABLE.setdefault(_p + '::byte_add', _byte_add(1))
+    TABLE.setdefault(_p + '::byte_sub', _byte_add(-1))
+    TABLE.setdefault(_p + '::wrapping_byte_add', _byte_add(1))
+
+
+@model('core::ptr::const_ptr::<impl *const T>::byte_offset_from', 'core::ptr::mut_ptr::<impl *mut T>::byte_offset_from',
+       'core::ptr::const_ptr::<impl *const T>::byte_offset_from_unsigned', 'core::ptr::mut_ptr::<impl *mut T>::byte_offset_from_unsigned',
+       'core::ptr::non_null::NonNull::<T>::byte_offset_from', 'core::ptr::non_null::NonNull::<T>::byte_offset_from_unsigned')
+def _byte_offset_from(I, st, fid, bi, a, c, t):
+    return app('sub', a[0], a[1])
+
+
+@model('core::ptr::mut_ptr::<impl *mut T>::map_addr', 'core::ptr::const_ptr::<impl *const T>::map_addr', 'core::ptr::non_null::NonNull::<T>::map_addr')
+def _map_addr(I, st, fid, bi, a, c, t):
+    # p.map_addr(f) is the pointer with address f(p.addr()); addresses and pointers are one term here
+    return _callf(I, fid, bi, a[1], [])(st, a[0])
+
+
+@model('core::ptr::mut_ptr::<impl *mut T>::with_addr', 'core::ptr::const_ptr::<impl *const T>::with_addr', 'core::ptr::non_null::NonNull::<T>::with_addr')
+def _with_addr(I, st, fid, bi, a, c, t):
+    return a[1]
+
+
+@model('core::bool::<impl bool>::then')
+def _bool_then(I, st, fid, bi, a, c, t):
+    # lazily: the closure runs only under the condition
+    cond = a[0]
+    run = _callf(I, fid, bi, a[1], [])
+    if is_c(cond):
+        return some(run(st)) if cond[1] else NONE
+    fa, fb = I.truth(st, cond, True), I.truth(st, cond, False)
+    if ('false',) in fa:
+        return NONE
+    if ('false',) in fb:
+        return some(run(st))
+    sa, sb = st.copy(), st.copy()
+    sa.facts |= fa
+    sb.facts |= fb
+    va = run(sa)
+    if va == ('never',):
+        I.adopt(st, sb)
+        return NONE
+    return I.join2(st, fid, bi, 'then', (sa, some(va)), (sb, NONE))
+
+
+@model('core::option::Option::<T>::is_some_and')
+def _opt_is_some_and(I, st, fid, bi, a, c, t):
+    return _opt_cases(I, st, fid, bi, a[0], 'Some', lambda s, p: _callf(I, fid, bi, a[1], [])(s, p), lambda s: FALSE, 'is_some_and')
+
+
+@model('core::option::Option::<T>::is_none_or')
+def _opt_is_none_or(I, st, fid, bi, a, c, t):
+    return _opt_cases(I, st, fid, bi, a[0], 'Some', lambda s, p: _callf(I, fid, bi, a[1], [])(s, p), lambda s: TRUE, 'is_none_or')
+
+
+@model('core::result::Result::<T, E>::is_ok_and')
+def _res_is_ok_and(I, st, fid, bi, a, c, t):
+    return _opt_cases(I, st, fid, bi, a[0], 'Ok', lambda s, p: _callf(I, fid, bi, a[1], [])(s, p), lambda s: FALSE, 'is_ok_and')
+
+
+@model('core::option::Option::<&T>::copied', 'core::option::Option::<&T>::cloned', 'core::option::Option::<&mut T>::copied')
+def _opt_copied(I, st, fid, bi, a, c, t):
+    return _opt_cases(I, st, fid, bi, a[0], 'Some', lambda s, p: some(deref(I, s, p)), lambda s: NONE, 'copied')
+
+
+@model('core::result::Result::<T, E>::inspect_err')
+def _res_inspect_err(I, st, fid, bi, a, c, t):
+    # the closure sees &e and runs for its effects on the Err arm only; the value passes through unchanged
+    def on_err(s):
+        r = _callf(I, fid, bi, a[1], [])(s, ('addr', ('tmp', 'inspect_err', fid, bi)))
+        return ('never',) if r == ('never',) else a[0]
+    return _opt_cases(I, st, fid, bi, a[0], 'Ok', lambda s, p: a[0], on_err, 'inspect_err')
+
+
+@model('core::result::Result::<T, E>::inspect', 'core::option::Option::<T>::inspect')
+def _res_inspect(I, st, fid, bi, a, c, t):
+    good = 'Ok' if 'Result' in (c.get('path') or '') else 'Some'
+
+    def on_good(s, p):
+        r = _callf(I, fid, bi, a[1], [])(s, ('addr', ('tmp', 'inspect', fid, bi)))
+        return ('never',) if r == ('never',) else a[0]
+    return _opt_cases(I, st, fid, bi, a[0], good, on_good, lambda s: a[0], 'inspect')
+
+
+@model('core::mem::maybe_uninit::MaybeUninit::<T>::write')
+def _mu_write(I, st, fid, bi, a, c, t):
+    # slot.write(v): a plain write of v into the slot (nothing is dropped), returns &mut to it
+    store(I, st, fid, bi, t, target_lv(a[0]), a[1], 'ptr::write')
+    return a[0]
+
+
+@model('core::ptr::mut_ptr::<impl *mut T>::replace', 'core::ptr::replace', 'core::ptr::non_null::NonNull::<T>::replace')
+def _ptr_replace(I, st, fid, bi, a, c, t):
+    old = deref(I, st, a[0])
+    store(I, st, fid, bi, t, target_lv(a[0]), a[1], 'ptr::write')
+    return old
+
+
+@model('core::cmp::Ordering::is_lt', 'core::cmp::Ordering::is_le', 'core::cmp::Ordering::is_gt', 'core::cmp::Ordering::is_ge', 'core::cmp::Ordering::is_eq', 'core::cmp::Ordering::is_ne')
+def _ord_is(I, st, fid, bi, a, c, t):
+    v = a[0]
+    name = (c.get('path') or '').split('::')[-1]
+    want = {'is_lt': {'Less'}, 'is_le': {'Less', 'Equal'}, 'is_gt': {'Greater'}, 'is_ge': {'Greater', 'Equal'}, 'is_eq': {'Equal'}, 'is_ne': {'Less', 'Greater'}}[name]
+    sv = I.static_variant(v)
+    if sv is not None:
+        return TRUE if sv in want else FALSE
+    for n in ('Less', 'Equal', 'Greater'):
+        if ('is', v, n) in st.facts:
+            return TRUE if n in want else FALSE
+    return None
